@@ -50,7 +50,9 @@ def run(ctx):
     ctx.floor("C01.calls-after-open-quote", n, 1)
     parsers.fallthrough_skips_member(ctx, s, parsers.EVENT_PARSER)
     parsers.skipper_first_set(ctx, s)
+    parsers.literal_skippers_advance(ctx, s)
     escaping.unescape_writes(ctx, s)
+    escaping.utf8_width_table(ctx, s)
     # 4. consumed length
     an = ctx.E.an(fn)
     oks = [(n_, v) for n_, k, v in s.return_kinds(fn) if k == "ok"]
